@@ -8,7 +8,7 @@ RULE = ('random subsets of the six schedulable parameters, affine dyadic factor 
         'LambdaParamScheduler attached to a real preconditioner whose step count is advanced between calls; '
         'all values dyadic so float products are exact; constructor stream over every (scheduled, callable) '
         'pair; exp_decay over k=0..K and dyadic caps; non-trivial = ≥1 scheduled parameter and ≥2 calls'
-        '; real-valued parameters given as Python ints; public properties read before and after scheduler.step(); the decay schedule object asked again in a non-monotone order; histories cut where exact products leave the 53-bit significand')
+        '; unscheduled parameters held as callables of the step count, one function object shared by several parameters; real-valued parameters given as Python ints; public properties read before and after scheduler.step(); the decay schedule object asked again in a non-monotone order; histories cut where exact products leave the 53-bit significand')
 TRUSTED = [
     'Lean 4.33 kernel; axioms audited ⊆ {propext, Classical.choice, Quot.sound}',
     'hand-written model KV.Sched tied to kfac/scheduler.py and kfac/hyperparams.py by this correspondence',
@@ -158,6 +158,8 @@ def run(ctx):
     for (case, il), mo in zip(pend, ctx.model.ask(lines)):
         ctx.compare('sched', case, mo, il)
 
+    unscheduled_stream(ctx)
+
     # constructor: every (scheduled, callable) pattern --------------------------------------
     lines, pend = [], []
     import itertools
@@ -238,6 +240,91 @@ def run(ctx):
         ms = [Fraction(x) for x in mo.split(',')]
         bad = [(k, v, float(m)) for k, (v, m) in enumerate(zip(vals, ms)) if abs(Fraction(v) - m) > Fraction(1, 2**51)]
         ctx.compare('expdecay', dict(case, first_bad=bad[:3]), 'match' if not bad else 'differs', 'match')
+
+
+def unscheduled_stream(ctx):
+    """(a) parameters WITHOUT a lambda that the preconditioner holds as callables of its step count (factor_decay =
+    exp_decay_factor_averaging(), a step-dependent lr): scheduler steps leave them untouched — they go on following the
+    step count, before and after every call; (b) ONE function object handed in as the lambda of several parameters: each
+    of them is multiplied by it at every call.  Oracle in Fractions, from the statement."""
+    import torch
+    from kfac.preconditioner import KFACPreconditioner
+    from kfac.scheduler import LambdaParamScheduler
+    rng = ctx.rng
+    for _ in range(ctx.budget(150, 1200)):
+        vals = [rng.choice([1, 2, 3, 10]), rng.choice([1, 2, 5, 8]), float(Fraction(rng.choice([1, 3, 5]), 2 ** rng.randrange(1, 8))),
+                float(Fraction(rng.choice([1, 3, 7]), 8)), float(Fraction(1, 2 ** rng.randrange(1, 10))),
+                float(Fraction(rng.choice([1, 3]), 2 ** rng.randrange(0, 5)))]
+        sched = [rng.random() < 0.45 for _ in NAMES]
+        # unscheduled parameters: some are callables v*(1+s) (intervals: v+s) of the preconditioner's step count
+        call_ = [(not sc) and rng.random() < 0.6 for sc in sched]
+
+        def hyper(j, v):
+            if j < 2:
+                return lambda st: v + st
+            return lambda st: v * (1 + st)
+        kw0 = {n: (hyper(j, v) if c else v) for j, (n, v, c) in enumerate(zip(NAMES, vals, call_))}
+        p = KFACPreconditioner(torch.nn.Linear(2, 2), **kw0)
+        # scheduled ones: distinct functions, or one shared function object for all of them
+        shared = rng.random() < 0.4 and sum(sched) >= 2
+        ab_shared = gen_lambda(rng)
+        f_shared = (lambda st, ab=ab_shared: float(ab[0] + ab[1] * st))
+        lams, kw = [], {}
+        for n, sc in zip(NAMES, sched):
+            if not sc:
+                lams.append(None)
+                continue
+            ab = ab_shared if shared else gen_lambda(rng)
+            lams.append(ab)
+            kw[n + '_lambda'] = f_shared if shared else (lambda st, ab=ab: float(ab[0] + ab[1] * st))
+        case = {'stream': 'unscheduled/shared', 'vals': [rat(v) for v in vals], 'scheduled': sched, 'callable_unscheduled': call_,
+                'shared_function': shared, 'lams': [None if l is None else [rat(l[0]), rat(l[1])] for l in lams]}
+        try:
+            s_ = LambdaParamScheduler(p, **kw)
+        except Exception as e:  # noqa: BLE001
+            ctx.fail(f'constructor raised {type(e).__name__}: {e} although no scheduled parameter is callable', case, 'unsched-ctor')
+            continue
+        exact = [Fraction(v) for v in vals]
+        calls = []
+        bad = None
+        for _c in range(rng.randrange(1, 6)):
+            p._steps += rng.choice([0, 1, 1, 2, 5])
+            arg = rng.choice([None, None, rng.randrange(0, 9)])
+            calls.append((p._steps, arg))
+            try:
+                s_.step(arg) if arg is not None else s_.step()
+            except Exception as e:  # noqa: BLE001
+                bad = f'scheduler.step raised {type(e).__name__}: {e}'
+                break
+            w_ = arg if arg is not None else p._steps
+            for j, ab in enumerate(lams):
+                if ab is not None:
+                    v = exact[j] * (ab[0] + ab[1] * w_)
+                    exact[j] = Fraction(int(v)) if j < 2 else v
+            if any(Fraction(float(e)) != e or abs(e) > 2**40 for e in exact):
+                break
+            # read now, and again after the training loop advanced the step count
+            for bump in (0, rng.choice([1, 3])):
+                p._steps += bump
+                cur = [p.factor_update_steps, p.inv_update_steps, p.damping, p.factor_decay, p.kl_clip, p.lr]
+                for j, n in enumerate(NAMES):
+                    if lams[j] is not None:
+                        want = exact[j]
+                    elif call_[j]:
+                        want = Fraction(vals[j]) + p._steps if j < 2 else Fraction(vals[j]) * (1 + p._steps)
+                    else:
+                        want = Fraction(vals[j])
+                    if Fraction(cur[j]) != want and bad is None:
+                        bad = (f'after calls {calls} at step count {p._steps}: {n} = {cur[j]}, expected {rat(want)} '
+                               f'({"scheduled" if lams[j] is not None else "unscheduled callable" if call_[j] else "unscheduled constant"})')
+            if bad:
+                break
+        if bad:
+            ctx.fail(bad, dict(case, calls=calls), 'unscheduled-or-shared')
+        ctx.evaluations += 1
+        ctx.case(str(case) + str(calls), nontrivial=any(sched) and (any(call_) or shared))
+        ctx.count('shared-function' if shared else 'distinct-functions')
+        ctx.count('callable-unscheduled' if any(call_) else 'constant-unscheduled')
 
 
 def search(ctx):
